@@ -10,6 +10,6 @@ StP == [ep |-> ep', net |-> net', sub |-> sub', snv |-> snv', scl |-> scl', del 
         answered |-> answered', cnt |-> cnt', stable |-> stable']
 Export ==
   /\ IF TLCGet(1) # St THEN PrintT(<<"S", ToJson(St)>>) /\ TLCSet(1, St) ELSE TRUE
-  /\ PrintT(<<"T", ToJson(act'), ToJson(out'), ToJson(StP)>>)
+  /\ PrintT(<<"T", ToJson(act'), ToJson(out' @@ [nt |-> [e \in E |-> NeedsTick(ep'[e])]]), ToJson(StP)>>)
 ASSUME TLCSet(1, [ep |-> 0])
 =============================================================================
